@@ -364,6 +364,12 @@ func TestC05(t *testing.T) {
 			for _, n := range c.scaleSizes([]int{1000, 100000, 1000000}, []int{5000000}) {
 				c.c05Program(s, "scale", scaleContinue(n), true)
 			}
+			// long flat else-if ladders: exactly one arm runs, however many rungs come before it
+			c.depthOverride = 12000
+			defer func() { c.depthOverride = 0 }()
+			for _, n := range c.scaleSizes([]int{126, 127, 128, 129, 140, 300, 1000}, []int{3000}) {
+				c.c05Program(s, "scale", scaleLadder(n, n%2 == 0), true)
+			}
 		})
 		c.Sub("stray-signals", func(s *Sub) {
 			if c.Shard != 0 {
